@@ -1149,6 +1149,9 @@ def v16_injectivity_is_about_values(ctx) -> None:
                 if isinstance(a, ast.Call) and norm(a.func) in ("set", "frozenset") and len(a.args) == 1:
                     a = a.args[0]
                     a = D.expanded(m.node, a) if isinstance(a, ast.Name) else a
+                while isinstance(a, ast.Call) and norm(a.func) in ("tuple", "list") and len(a.args) == 1:
+                    a = a.args[0]
+                    a = D.expanded(m.node, a) if isinstance(a, ast.Name) else a
                 inner.append(a)
             if norm(inner[0]) != norm(inner[1]):
                 continue
